@@ -290,6 +290,35 @@ def run(shard, ctx):
                     if len(dev0.calls) != 1 and not ctx.failures:
                         ctx.fail("C13:writesame16.execute_count_%d" % len(dev0.calls), "writesame16(ndob=1) without block size: %d commands" % len(dev0.calls), {"method": "writesame16"})
             fault_round(ctx, c, setname, dict(required_args(c, rng)), rng)
+            if not c.custom:
+                # consecutive calls of one method whose wide arguments differ by a multiple of 2**61-1 (equal hash()): each call's
+                # own argument reaches its CDB
+                for seq in harness.hash_collision_cases(c, rng):
+                    devq = harness.Recorder(getattr(E, setname))
+                    sq = harness.make_facade(devq, 512)
+                    for aq in seq:
+                        aq = dict(aq)
+                        if c.xfer in ("read", "write"):
+                            aq["tl"] = 1
+                            if "data" in aq:
+                                aq["data"] = harness.pattern_bytes(512, 3)
+                        if "blocksize" in aq and c.xfer != "ata":
+                            aq["blocksize"] = 512
+                        nq = len(devq.calls)
+                        ctx.case(("congruent", c.facade, setname, harness.args_repr(aq)), True)
+                        try:
+                            harness.facade_call(c, sq, dict(aq))
+                        except Exception:  # noqa: BLE001
+                            pass
+                        ctx.count("congruent_argument_calls")
+                        if len(devq.calls) != nq + 1:
+                            continue  # judged by the other monitors
+                        chk = dict(harness.defaults(c))
+                        chk.update(aq)
+                        chk.update(c.facade_fixed)
+                        for mech, msg in harness.check_cdb(c, devq.calls[-1][0].cdb, chk):
+                            ctx.fail("C13:%s.cdb.%s" % (c.facade, mech), "%s right after a call whose argument had the same hash(): %s" % (c.facade, msg),
+                                     {"method": c.facade, "table": setname, "args": aq, "cdb": bytes(devq.calls[-1][0].cdb)})
             for rep in range(shard["reps"]):
                 for sub in subsets:
                     req = required_args(c, rng)
